@@ -166,6 +166,18 @@ class only_encoder:
         for n in self.saved:
             getattr(sm, n)[:] = [fac] if n == name else []
         self.family = name
+        # ... and, for half of the forced cases, with another registered imputer than the default one (the selector
+        # reads the module-level defaults when it is constructed).  Constraint-violation imputers are documented not
+        # to impute (they hand out a -1 matrix) and are left out.
+        self.saved_imp = (sm.DEFAULT_LAZY_IMPUTER, sm.DEFAULT_EAGER_IMPUTER)
+        self.imputer = 'default'
+        if (self.k // 2) % 2 == 1:
+            import adsg_core.optimization.assign_enc.encoder_registry as reg
+            lazy = [f for f in reg.LAZY_IMPUTERS if 'ConstraintViolation' not in type(f()).__name__]
+            eager = [f for f in reg.EAGER_IMPUTERS if 'ConstraintViolation' not in type(f()).__name__]
+            sm.DEFAULT_LAZY_IMPUTER = lazy[(self.k // 4) % len(lazy)]
+            sm.DEFAULT_EAGER_IMPUTER = eager[(self.k // 4) % len(eager)]
+            self.imputer = '%s/%s' % (type(sm.DEFAULT_LAZY_IMPUTER()).__name__, type(sm.DEFAULT_EAGER_IMPUTER()).__name__)
         self.xdg = os.environ.get('XDG_CACHE_HOME')
         if self.xdg:
             os.environ['XDG_CACHE_HOME'] = os.path.join(self.xdg, 'forced_%d' % (self.k % 97))
@@ -175,6 +187,7 @@ class only_encoder:
         import os
         for n, lst in self.saved.items():
             getattr(self.sm, n)[:] = lst
+        self.sm.DEFAULT_LAZY_IMPUTER, self.sm.DEFAULT_EAGER_IMPUTER = self.saved_imp
         if self.xdg:
             os.environ['XDG_CACHE_HOME'] = self.xdg
         return False
